@@ -1,1 +1,2 @@
 pub mod bgp;
+pub mod pb;
